@@ -284,6 +284,17 @@ def _shard_task(modname, subname, tier, seed, shard, nshards, budget_s):
           'excluded': Counter(), 'fail': None, 'harness': None, 'enum_total': 0, 'enum_done': True,
           'timed_out': False}
 
+    trace_path = os.path.join(os.environ.get('VF_TMP', '/tmp'), 'current', f'{subname}.{shard}.json')
+    os.makedirs(os.path.dirname(trace_path), exist_ok=True)
+    trace_fd = os.open(trace_path, os.O_WRONLY | os.O_CREAT | os.O_TRUNC, 0o600)
+
+    def trace(case):
+        # the case about to run, so that the parent can tell what killed a worker that dies (segfault in a C extension, OOM kill)
+        data = json.dumps(case, default=str).encode()
+        os.lseek(trace_fd, 0, 0)
+        os.write(trace_fd, data + b'\n')
+        os.ftruncate(trace_fd, len(data) + 1)
+
     def account(case, info):
         st['evals'] += info.get('evals', 1)   # a block case reports how many inputs it evaluated
         if info.get('nt', True):
@@ -303,6 +314,7 @@ def _shard_task(modname, subname, tier, seed, shard, nshards, budget_s):
             st['enum_total'] += 1
             if i % nshards != shard:
                 continue
+            trace(case)
             kind, info = run_case(sub, case)
             if kind == 'ok':
                 account(case, info)
@@ -356,6 +368,7 @@ def _shard_task(modname, subname, tier, seed, shard, nshards, budget_s):
         def prop(case):
             if budget_s and not last_fail and time.time() - t0 > budget_s:
                 raise _Stop()
+            trace(case)
             kind, info = run_case(sub, case)
             if kind == 'ok':
                 account(case, info)
@@ -407,6 +420,118 @@ def _child(task, path):
     os._exit(0)
 
 
+def run_case_in_child(sub, case, timeout=120):
+    """run one case in a forked child: -> ('ok'|'fail'|'harness'|'known', info) or ('crash', description)"""
+    import pickle
+    import tempfile
+    fd, path = tempfile.mkstemp(prefix='vf_child_', dir=os.environ.get('VF_TMP') or None)
+    os.close(fd)
+    pid = os.fork()
+    if pid == 0:
+        try:
+            try:
+                import resource
+                resource.setrlimit(resource.RLIMIT_AS, (6 << 30, 6 << 30))
+            except Exception:
+                pass
+            r = run_case(sub, case)
+            with open(path, 'wb') as f:
+                pickle.dump(r, f)
+        finally:
+            os._exit(0)
+    t0 = time.time()
+    status = None
+    while time.time() - t0 < timeout:
+        wpid, status = os.waitpid(pid, os.WNOHANG)
+        if wpid:
+            break
+        time.sleep(0.01)
+        status = None
+    try:
+        if status is None:
+            os.kill(pid, 9)
+            os.waitpid(pid, 0)
+            return 'crash', f'the case did not finish within {timeout} s and was killed'
+        if os.WIFSIGNALED(status):
+            import signal
+            sig = os.WTERMSIG(status)
+            try:
+                name = signal.Signals(sig).name
+            except Exception:
+                name = str(sig)
+            return 'crash', f'the interpreter was killed by signal {name} while running this case'
+        try:
+            with open(path, 'rb') as f:
+                return pickle.load(f)
+        except Exception:
+            return 'crash', 'the child interpreter exited without a result'
+    finally:
+        try:
+            os.unlink(path)
+        except OSError:
+            pass
+
+
+def minimise_crash(sub, case, budget_s=90):
+    """ddmin over the list-valued 'steps'/'calls' entry of a crashing case; every trial runs in its own child"""
+    key = next((k for k in ('steps', 'calls', 'ops') if isinstance(case, dict) and isinstance(case.get(k), list)), None)
+    if key is None:
+        return case
+    t0 = time.time()
+    items = list(case[key])
+    n = 2
+    while len(items) >= 2 and time.time() - t0 < budget_s:
+        chunk = max(1, len(items) // n)
+        reduced = False
+        for i in range(0, len(items), chunk):
+            cand = items[:i] + items[i + chunk:]
+            if not cand:
+                continue
+            kind, _ = run_case_in_child(sub, dict(case, **{key: cand}), timeout=30)
+            if kind == 'crash':
+                items = cand
+                n = max(n - 1, 2)
+                reduced = True
+                break
+            if time.time() - t0 > budget_s:
+                break
+        if not reduced:
+            if chunk == 1:
+                break
+            n = min(len(items), n * 2)
+    return dict(case, **{key: items})
+
+
+def _worker_died(t, exitcode):
+    import importlib
+    subname, shard = t[1], t[4]
+    base = {'sub': subname, 'shard': shard}
+    path = os.path.join(os.environ.get('VF_TMP', '/tmp'), 'current', f'{subname}.{shard}.json')
+    try:
+        with open(path) as f:
+            case = json.loads(f.readline())
+    except Exception:
+        return dict(base, harness=f'worker process died (exit code {exitcode}) without a result and without a traced case')
+    try:
+        mod = importlib.import_module(t[0])
+        sub = {s.name: s for s in mod.SUBCHECKS}[subname]
+        kind, info = run_case_in_child(sub, case)
+    except Exception as e:
+        return dict(base, harness=f'worker process died (exit code {exitcode}); re-running its last case failed: {e}')
+    if kind != 'crash':
+        # not reproducible from the case alone: a harness problem (state leaking between cases, memory pressure), never a verdict
+        return dict(base, harness=f'worker process died (exit code {exitcode}) but its last case runs to completion ({kind}) in a fresh child; case: {json.dumps(case, default=str)[:600]}')
+    for fid, pred in sub.known.items():
+        try:
+            if pred(case):
+                return dict(base, harness=f'worker died on a case that matches known finding {fid}, which should have been excluded by construction')
+        except Exception:
+            pass
+    small = minimise_crash(sub, case)
+    return dict(base, evals=1, nt=[], samples=[], labels={'interpreter_crash': 1}, excluded={}, wall=0.0, enum_total=0, enum_done=False, timed_out=False,
+                fail={'case': dict(small, _crash=True) if isinstance(small, dict) else small, 'msg': info + f' (worker exit code {exitcode}); every later case of this shard was not run'})
+
+
 def run_tasks(tasks, procs, task_timeout):
     import pickle
     ctx = multiprocessing.get_context('fork')
@@ -438,7 +563,7 @@ def run_tasks(tasks, procs, task_timeout):
                     results.append(pickle.load(f))
                 os.unlink(path)
             else:
-                results.append({'sub': t[1], 'shard': t[4], 'harness': f'worker process died (exit code {p.exitcode}) without a result'})
+                results.append(_worker_died(t, p.exitcode))
             del running[i]
     return results
 
@@ -658,7 +783,12 @@ def _replay(prop_id, mod, path):
     submap = {s.name: s for s in mod.SUBCHECKS}
     sub = submap[w['subcheck']]
     ACTIVE_KNOWN.clear()
-    kind, info = run_case(sub, w['case'])
+    if isinstance(w['case'], dict) and w['case'].get('_crash'):
+        kind, info = run_case_in_child(sub, w['case'])
+        if kind == 'crash':
+            kind = 'fail'
+    else:
+        kind, info = run_case(sub, w['case'])
     if kind == 'fail':
         print(f'VIOLATION property={prop_id} replay={os.path.abspath(path)}')
         print(f'  detail: {sub.name}: {info[:2000]}')
